@@ -140,7 +140,6 @@ Notation vrun := (vrun T mul div norm_of is_zero one).
 Notation v_nv := (v_nv T).
 Notation v_p := (v_p T).
 Notation v_e := (v_e T).
-Notation v_d := (v_d T).
 
 Lemma pstep_sim c s o :
   view c (fst (pstep false c s o)) = fst (vstep c (view c s) o) /\
@@ -197,25 +196,12 @@ Proof. intros E. rewrite (profile_reads_fresh_lemma c h1), (profile_reads_fresh_
 
 (* no read raises unless the class has no such attribute (CurveOfGrowth.data_profile:
    AttributeError on a fresh object too) *)
-Lemma vstep_d_some c v o : v_d v <> None -> v_d (fst (vstep c v o)) <> None.
-Proof.
-  destruct o as [[| |] | | sm | ]; cbn; auto.
-  - destruct (is_zero _); cbn; auto. destruct (p_DR T c); cbn; auto. destruct (v_d v); cbn; congruence.
-  - destruct (p_DR T c); cbn; auto. destruct (v_d v); cbn; congruence.
-Qed.
-Lemma vrun_d_some c h : forall v, v_d v <> None -> v_d (vrun c h v) <> None.
-Proof.
-  induction h as [|o h IH]; intros v H; [exact H|]. unfold vrun in *. cbn [fold_left].
-  apply IH, vstep_d_some, H.
-Qed.
 Lemma profile_no_raise_lemma c h o e :
   pobserve false c h o = ORaise T e -> o = PRead AData /\ p_DR T c = None /\ e = 3%Z.
 Proof.
   rewrite profile_obs_reference.
   destruct o as [[| |] | | sm | ]; cbn; try discriminate.
-  - destruct (v_d _) eqn:E; [discriminate|]. intros [= <-]. repeat split; auto.
-    destruct (p_DR T c) eqn:D; [|reflexivity]. exfalso.
-    refine (vrun_d_some c (filter is_mut h) (view c pinit) _ E). cbn. rewrite D. discriminate.
+  - destruct (p_DR T c); [discriminate|]. intros [= <-]. repeat split; auto.
   - destruct (is_zero _); discriminate.
 Qed.
 End ProfProofs.
@@ -744,3 +730,166 @@ End FinderProofs.
 Lemma readonly_finder_calls_fresh_lemma (K I R : Type) (find : K -> I -> R) k0 h :
   map fst (sfrun K I R (fun k => k) find k0 h) = map (fun i => find k0 i) h.
 Proof. apply (starfinder_calls_fresh_lemma K I R (fun k => k) find (fun k => eq_refl) k0 h). Qed.
+
+
+(* ------------------------------------------------------------------------- *)
+(* the correspondence predicates accept only observation lists on which the   *)
+(* implementation satisfied the property                                      *)
+(* ------------------------------------------------------------------------- *)
+Lemma term_eqb_refl t : term_eqb t t = true.
+Proof. induction t; cbn; rewrite ?Z.eqb_refl, ?IHt, ?IHt1, ?IHt2; reflexivity. Qed.
+
+Definition bobs_ok (ob : bobs) : Prop :=
+  let '(r, exc, eqf, bn, rn, keys) := ob in exc = 0%Z /\ eqf = true.
+
+Lemma bcheck_sound_gen c h : forall s,
+  binv term (Ap1 1) (Ap1 2) (Ap1 3) (Ap1 4) (Ap1 5) (Ap2 6) c s -> bcheck c s h = true -> Forall bobs_ok h.
+Proof.
+  induction h as [|[[[[[r exc] eqf] bn] rn] keys] h IH]; intros s I H; [constructor|].
+  cbn [bcheck] in H. unfold tb_step in H.
+  destruct (bstep term (Ap1 1) (Ap1 2) (Ap1 3) (Ap1 4) (Ap1 5) (Ap2 6) false c s (bread_of r)) as [s1 o] eqn:E.
+  destruct (bstep_ok term (Ap1 1) (Ap1 2) (Ap1 3) (Ap1 4) (Ap1 5) (Ap2 6) c s (bread_of r) s1 o I E) as [I1 ->].
+  apply andb_true_iff in H. destruct H as [H Hr]. apply andb_true_iff in H. destruct H as [H _].
+  apply andb_true_iff in H. destruct H as [H1 H2].
+  constructor; [|exact (IH s1 I1 Hr)].
+  unfold bobs_ok. split; [apply Z.eqb_eq; exact H1|].
+  unfold tb_fresh in H2. rewrite term_eqb_refl in H2. destruct eqf; [reflexivity|discriminate].
+Qed.
+
+Lemma bcheck_sound_lemma thr low f11 h :
+  bcheck (tb_cfg thr low f11) (binit term (tb_cfg thr low f11)) h = true -> Forall bobs_ok h.
+Proof. apply bcheck_sound_gen, binv_init. Qed.
+
+Lemma list_eqb_refl {A} (eqb : A -> A -> bool) (l : list A) :
+  (forall x, eqb x x = true) -> list_eqb eqb l l = true.
+Proof. intros H. induction l as [|x l IH]; cbn; [reflexivity|]. rewrite H, IH. reflexivity. Qed.
+Lemma opt_term_eqb_refl o : opt_term_eqb o o = true.
+Proof. destruct o; cbn; [apply term_eqb_refl|reflexivity]. Qed.
+
+(* PSFPhotometry: an accepted observation either raised nothing and equalled the fresh
+   object's result, or is the configuration error a fresh object raises too *)
+Definition psobs_ok (c : pscfg) (ob : psobsv) : Prop :=
+  let '(d, ini, tab, (exc, isnone, eqf), st) := ob in
+  (exc = 0%Z /\ eqf = true) \/ (exc = 2%Z /\ ps_finder c = false /\ ini = 0%Z).
+
+Lemma pscheck_sound_gen c g0 h : forall s,
+  ps_grouper Z term s = g0 -> pscheck c g0 s h = true -> Forall (psobs_ok c) h.
+Proof.
+  induction h as [|[[[[d ini] tab] [[exc isnone] eqf]] [[gn rn] fn]] h IH]; intros s G H; [constructor|].
+  cbn [pscheck] in H.
+  set (a := {| pa_data := d; pa_init := if (ini =? 0)%Z then None else Some (ini =? 2)%Z; pa_tab := tab |}) in *.
+  pose proof (pscall_outcome Z term tfit c s (psinit Z term g0) a) as Eo.
+  pose proof (pscall_grouper Z term tfit c s a) as Eg.
+  pose proof (psf_raise_lemma Z term tfit c s a) as Er.
+  destruct (pscall Z term tfit false c s a) as [s1 o]. cbn [fst snd] in *.
+  rewrite <- Eo in H by (rewrite G; reflexivity).
+  repeat (apply andb_true_iff in H; let H' := fresh "K" in destruct H as [H H']).
+  constructor; [|apply (IH s1); [congruence|assumption]].
+  unfold psobs_ok. destruct o as [r|e].
+  - left. repeat (apply andb_true_iff in H; let H' := fresh "L" in destruct H as [H H']).
+    split; [apply Z.eqb_eq; exact H|]. rewrite opt_term_eqb_refl in L. destruct eqf; [reflexivity|discriminate].
+  - right. destruct (Er e eq_refl) as (F & Hi & ->). split; [apply Z.eqb_eq; exact H|]. split; [exact F|].
+    subst a. cbn in Hi. destruct (ini =? 0)%Z eqn:E0; [apply Z.eqb_eq; exact E0|discriminate].
+Qed.
+Lemma pscheck_sound_lemma c g0 h :
+  pscheck c g0 (psinit Z term g0) h = true -> Forall (psobs_ok c) h.
+Proof. apply pscheck_sound_gen. reflexivity. Qed.
+
+(* Ellipse.fit_image *)
+Definition eobs_ok (ob : eobsv) : Prop :=
+  let '(id, lin, fc, fp, fe, (eqf, lin_after, fix_after)) := ob in eqf = true.
+Lemma echeck_sound_gen g0 h : echeck g0 g0 h = true -> Forall eobs_ok h.
+Proof.
+  induction h as [|[[[[[id lin] fc] fp] fe] [[eqf la] fa]] h IH]; intros H; [constructor|].
+  cbn [echeck] in H.
+  set (a := {| e_id := id; e_linear := if (lin =? 0)%Z then None else Some (lin =? 2)%Z;
+               e_fc := fc; e_fp := fp; e_fe := fe |}) in *.
+  pose proof (ecall_geo term tefit (Atom 49) g0 a) as Eg.
+  destruct (ecall term tefit (Atom 49) false g0 a) as [g1 r]. cbn [fst snd] in *. subst g1.
+  destruct (g_fix g0) as [[[f1 f2] f3] f4].
+  repeat (apply andb_true_iff in H; let H' := fresh "K" in destruct H as [H H']).
+  constructor; [|apply IH; assumption].
+  unfold eobs_ok. rewrite term_eqb_refl in H. destruct eqf; [reflexivity|discriminate].
+Qed.
+Lemma echeck_sound_lemma g0 h : echeck g0 g0 h = true -> Forall eobs_ok h.
+Proof. apply echeck_sound_gen. Qed.
+
+(* GriddedPSFModel *)
+Definition gobs_ok (ob : gobsv) : Prop := let '(x, y, eqf, keys) := ob in eqf = true.
+Lemma gcheck_sound_gen xg yg h : forall c, ginv term tspline c -> gcheck xg yg c h = true -> Forall gobs_ok h.
+Proof.
+  induction h as [|[[[x y] eqf] keys] h IH]; intros c I H; [constructor|].
+  cbn [gcheck] in H.
+  destruct (geval_ok term tspline xg yg c (x, y) I) as [H1 H2].
+  destruct (geval_ok term tspline xg yg [] (x, y) (ginv_nil term tspline)) as [H3 _].
+  destruct (geval term tspline xg yg c (x, y)) as [c1 vs]. cbn [fst snd] in *.
+  rewrite H3, <- H1 in H.
+  repeat (apply andb_true_iff in H; let H' := fresh "K" in destruct H as [H H']).
+  constructor; [|apply (IH c1); assumption].
+  unfold gobs_ok. rewrite (list_eqb_refl term_eqb vs term_eqb_refl) in H. destruct eqf; [reflexivity|discriminate].
+Qed.
+Lemma gcheck_sound_lemma xg yg h : gcheck xg yg [] h = true -> Forall gobs_ok h.
+Proof. apply gcheck_sound_gen, ginv_nil. Qed.
+
+(* apertures *)
+Definition aop_of (ob : aobsv) : aop term :=
+  let '(kind, a, b, valid, _) := ob in
+  if (kind =? 0)%Z then ASet term (Z.to_nat a) (Atom b) valid else ARead term (aattr_of a).
+(* an accepted read raised nothing and equalled the value of a fresh aperture built from
+   the current parameters *)
+Definition aobs_ok (ob : aobsv) : Prop :=
+  let '(kind, a, b, valid, (exc, eqf, keys)) := ob in kind <> 0%Z -> exc = 0%Z /\ eqf = true.
+
+Notation t_ainv := (ainv term (Ap1 10) (Ap1 11) (Ap1 12) (fun p => Ap1 13 (enc_params p)) (fun p => Ap1 14 (enc_params p))
+                         (Ap2 15) (Ap2 16) (Ap2 17) (fun m p b e => Ap2 18 (Ap2 19 (Atom m) (enc_params p)) (Ap2 20 b e)) (Atom (-1))).
+Notation t_afinal := (afinal term (Ap1 10) (Ap1 11) (Ap1 12) (fun p => Ap1 13 (enc_params p)) (fun p => Ap1 14 (enc_params p))
+                         (Ap2 15) (Ap2 16) (Ap2 17) (fun m p b e => Ap2 18 (Ap2 19 (Atom m) (enc_params p)) (Ap2 20 b e)) (Atom (-1))).
+
+Lemma acheck_sound_gen cl h : forall s,
+  t_ainv s -> all_set term (a_params term s) -> Forall (wf_op term (length (a_params term s))) (map aop_of h) ->
+  acheck cl s h = true -> Forall aobs_ok h.
+Proof.
+  induction h as [|[[[[kind a] b] valid] [[exc eqf] keys]] h IH]; intros s I A W H; [constructor|].
+  cbn [map] in W. inversion W as [|? ? W1 W2]; subst. cbn [acheck] in H. cbn [aop_of] in W1.
+  unfold ta_step in H.
+  set (o := if (kind =? 0)%Z then ASet term (Z.to_nat a) (Atom b) valid else ARead term (aattr_of a)) in *.
+  destruct (astep term (Ap1 10) (Ap1 11) (Ap1 12) (fun p => Ap1 13 (enc_params p)) (fun p => Ap1 14 (enc_params p))
+                  (Ap2 15) (Ap2 16) (Ap2 17) (fun m p b e => Ap2 18 (Ap2 19 (Atom m) (enc_params p)) (Ap2 20 b e))
+                  (Atom (-1)) cl s o) as [s1 ob] eqn:E.
+  destruct (astep_ok _ _ _ _ _ _ _ _ _ _ _ _ _ _ _ _ I A W1 E) as (I1 & A1 & L1 & Ho).
+  apply andb_true_iff in H. destruct H as [H Hr]. apply andb_true_iff in H. destruct H as [H _].
+  constructor; [|apply (IH s1 I1 A1); [rewrite L1; exact W2|exact Hr]].
+  unfold aobs_ok. intros Hk. apply Z.eqb_neq in Hk. subst o. rewrite Hk in *.
+  destruct Ho as [P ->]. apply andb_true_iff in H. destruct H as [H1 H2].
+  split; [apply Z.eqb_eq; exact H1|]. unfold ta_fresh in H2. rewrite P, term_eqb_refl in H2.
+  destruct eqf; [reflexivity|discriminate].
+Qed.
+
+Lemma acheck_app cl h1 : forall s h2,
+  acheck cl s (h1 ++ h2) = true ->
+  acheck cl s h1 = true /\ acheck cl (t_afinal cl s (map aop_of h1)) h2 = true.
+Proof.
+  induction h1 as [|[[[[kind a] b] valid] [[exc eqf] keys]] h1 IH]; intros s h2 H; [split; [reflexivity|exact H]|].
+  cbn [app acheck] in H. cbn [acheck map afinal fold_left aop_of]. unfold ta_step in *.
+  destruct (astep term _ _ _ _ _ _ _ _ _ _ cl s _) as [s1 ob]. cbn [fst].
+  apply andb_true_iff in H. destruct H as [H Hr]. destruct (IH s1 h2 Hr) as [K1 K2].
+  rewrite H, K1. split; [reflexivity|exact K2].
+Qed.
+
+(* histories as the harness writes them: the constructor's assignments, then any
+   well-formed interleaving *)
+Lemma acheck_sound_lemma le la vs hc h :
+  map aop_of hc = ctor_ops term 0 vs -> Forall (wf_op term (length vs)) (map aop_of h) ->
+  acheck {| lazy_ext := le; lazy_area := la |} (ainit term) (hc ++ h) = true -> Forall aobs_ok h.
+Proof.
+  intros Hc W H. apply acheck_app in H. destruct H as [_ H].
+  rewrite Hc in H. change (ainit term) with (aconstructed term []) in H.
+  pose proof (ctor_final term (Ap1 10) (Ap1 11) (Ap1 12) (fun p => Ap1 13 (enc_params p)) (fun p => Ap1 14 (enc_params p))
+                (Ap2 15) (Ap2 16) (Ap2 17) (fun m p b e => Ap2 18 (Ap2 19 (Atom m) (enc_params p)) (Ap2 20 b e)) (Atom (-1))
+                {| lazy_ext := le; lazy_area := la |} vs []) as F.
+  cbn [length app] in F. rewrite F in H.
+  refine (acheck_sound_gen _ h (aconstructed term vs) _ _ _ H); cbn.
+  - apply ainv_empty.
+  - apply all_set_map_some. exact (Atom 0).
+  - rewrite map_length. exact W.
+Qed.
